@@ -121,7 +121,24 @@ def check(case, ctx):
     if len(wk) > q:
         ctx.true("K~-extra-zero", bool(np.all(np.abs(wk[q:]) <= 1e-8 * sc)), "extra eigenvalues of K~ not zero")
     # ---- route independence (needs a determined subspace) ----------------------------------------------------
-    if gap < 1e-6 or w[k - 1] / sc < 1e-8:
+    if w[k - 1] / sc < 1e-8:
+        # k exceeds the rank of the modified Gram matrix: the surplus components carry a zero eigenvalue and must stay empty,
+        # so the effective r-dimensional subspace (r < k) is still determined and every route has to agree on it
+        r = int((w / sc > 1e-6).sum())
+        clear = r >= 1 and not np.any((w / sc > 1e-10) & (w / sc <= 1e-6))
+        if not clear:
+            ctx.skip("retained subspace not separated (gap rule)")
+            return
+        ctx.cls("k>rank")
+        Gr = (U[:, :r] * w[:r]) @ U[:, :r].T
+        t_r = 1e-6
+        ctx.close("k>rank:TT^T(feature)==oracle", F["T"] @ F["T"].T, Gr, t_r * sc, "feature space, k above the rank")
+        ctx.close("k>rank:TT^T(sample)==oracle", Sm["T"] @ Sm["T"].T, Gr, t_r * sc, "sample space, k above the rank")
+        ctx.close("k>rank:predictions", F["pred"], Sm["pred"], 1e-5 * max(1.0, float(np.abs(Y).max())), "feature vs sample predictions, k above the rank")
+        ctx.close("k>rank:reconstructions", F["rec"], Sm["rec"], 1e-5 * max(1.0, float(np.abs(X).max())), "feature vs sample reconstruction, k above the rank")
+        ctx.nontrivial = True
+        return
+    if gap < 1e-6:
         ctx.skip("retained subspace not separated (gap rule)")
         return
     ctx.nontrivial = True
